@@ -1,5 +1,5 @@
 # replay of a bounded stand-in violation (C02): re-run native/c02_preps.py
 import sys
-print('MZgate(0.5, 0.9) followed by its .H form on modes (2, 0) (gaussian backend) is not the identity (max moment change 1.15)')
+print('sMZgate(0.4, 1.3) followed by its .H form on modes (2, 0) (gaussian backend) is not the identity (max moment change 0.953)')
 print('REPLAY-VIOLATION')
 sys.exit(1)
